@@ -368,6 +368,37 @@ def world():
     return w
 
 
+def falsy_mode(key):
+    """0 = ordinary owner objects; 1 = the HasTraits owner class (and with it every HasTraits value of the
+    lattice) defines __bool__ returning False; 2 = it defines __len__ returning 0.  Derived from the case's own
+    text (crc32), so a replay keeps it.  Nothing in C01 / C03 depends on an object's truth value."""
+    import zlib
+    return (0, 0, 1, 2)[zlib.crc32(key.encode()) % 4]
+
+
+class falsy:
+    """Context manager installing / removing the special method on the owner base class O."""
+
+    def __init__(self, mode):
+        self.mode = mode
+
+    def __enter__(self):
+        O = world().classes[0]
+        if self.mode == 1:
+            O.__bool__ = lambda self: False
+        elif self.mode == 2:
+            O.__len__ = lambda self: 0
+        return self
+
+    def __exit__(self, *a):
+        O = world().classes[0]
+        if self.mode == 1:
+            del O.__bool__
+        elif self.mode == 2:
+            del O.__len__
+        return False
+
+
 class Ctx:
     """Per-case object table: the same term denotes the same object within a case."""
 
